@@ -194,6 +194,16 @@ class Normaliser:
     def _add(self, qual, node, mname, cls):
         if qual in self.known:
             return
+        # the name of a pinned function that is gone under its pinned
+        # qualified name: the same function in another shape (a method made
+        # a module-level function, say) - an anchor, not a helper to inline
+        if not hasattr(self, '_missing_names'):
+            cur = set(function_table(self.trees))
+            self._missing_names = {
+                q.split('.')[-1] for q in self.known
+                if q not in cur and not q.endswith('.setter')}
+        if node.name in self._missing_names:
+            return
         if node.name.startswith('__') and node.name.endswith('__'):
             return
         if any(_dec(d) == 'property' or _dec(d) == 'setter'
@@ -908,7 +918,8 @@ def map_back(trees):
                 cc = callers_of(trees, cur)
                 cands = [q for q in introduced if cur[q][2] == kcls and
                          cur[q][1] == k.split('.')[0] and
-                         cc.get(q) == pk['callers']]
+                         cc.get(q) == pk['callers'] and
+                         len(cur[q][0].args.args) == pk.get('nargs')]
             if len(cands) != 1:
                 continue
             q = cands[0]
